@@ -32,6 +32,9 @@ def run(ctx):
     n = 600 if ctx.quick else 6000
     ctx.tlc("MC_Syntax", "MC_Syntax_sim", replay="syntax-visit", simulate={"num": n, "depth": 500, "procs": 12, "seed_offset": 20},
             label="MC_Syntax_sim", timeout=7200)
+    # alias chains across two modules ending in every kind of type: what a visitor is shown for a field typed by the first alias is
+    # the final type and what is nested in it
+    ctx.tlc("MC_AliasChain", "MC_AliasChain_" + ctx.tier, replay="aliaschain", coverage=False)
     # (T) every recorded walk against the machine run on the model's element tree of the file
     trace = ctx.collect_events("visit")
     ctx.validate_events("Trace_Visitor", trace, parallel=8)
